@@ -104,8 +104,15 @@ while_case!(c17_while_three_truthy_kinds_then_false, [3, 4, 5, 1], 3);
 pub(crate) struct CommentProbe {
     text: &'static str,
     pushed: Cell<u8>,
+    /// whether the comment's source text contains interpolation (then the
+    /// evaluated text is known only after evaluation)
+    interpolated: bool,
 }
 impl CommentProbe {
+    /// as `SassString::single_raw`: the source text, if it is one raw part
+    fn single_raw(&self) -> Option<&'static str> {
+        if self.interpolated { None } else { Some(self.text) }
+    }
     fn text(&self) -> &'static str {
         self.text
     }
@@ -128,7 +135,7 @@ impl CommentProbe {
 #[kani::unwind(8)]
 fn c36_expanded_keeps_every_loud_comment() {
     let bang: bool = kani::any();
-    let p = CommentProbe { text: if bang { "! keep " } else { " plain " }, pushed: Cell::new(0) };
+    let p = CommentProbe { text: if bang { "! keep " } else { " plain " }, pushed: Cell::new(0), interpolated: kani::any() };
     assert!(snippet_comment(false, &p, &p).is_ok());
     assert!(p.pushed.get() == 1, "expanded: the comment is emitted exactly once");
 }
@@ -136,7 +143,7 @@ fn c36_expanded_keeps_every_loud_comment() {
 #[kani::proof]
 #[kani::unwind(8)]
 fn c36_compressed_drops_ordinary_comments() {
-    let p = CommentProbe { text: " plain ", pushed: Cell::new(0) };
+    let p = CommentProbe { text: " plain ", pushed: Cell::new(0), interpolated: kani::any() };
     assert!(snippet_comment(true, &p, &p).is_ok());
     assert!(p.pushed.get() == 0, "compressed: an ordinary comment is not emitted");
 }
@@ -144,7 +151,7 @@ fn c36_compressed_drops_ordinary_comments() {
 #[kani::proof]
 #[kani::unwind(8)]
 fn c36_compressed_keeps_bang_comments() {
-    let p = CommentProbe { text: "! keep ", pushed: Cell::new(0) };
+    let p = CommentProbe { text: "! keep ", pushed: Cell::new(0), interpolated: kani::any() };
     assert!(snippet_comment(true, &p, &p).is_ok());
     assert!(p.pushed.get() == 1, "compressed: a comment starting with /*! is kept");
 }
